@@ -35,6 +35,30 @@ def gen_malformed(rng):
     return c
 
 
+def gen_long_case(rng):
+    """Long sequences (ulp(t) comparable to 1e-12 ns): evaluation times from np.linspace / k/N fractions that
+    coincide with multiples of dt up to round-off."""
+    import numpy as np
+    dur = rng.choice([5000, 10000, 50000, 200000, 4096, 8192, 30000])
+    dt = rng.choice([d for d in (10, 100, 1000, 25, 250) if dur / d <= 3000])
+    n = rng.choice([10, 20, 50, 100, 101, 200, 64, 1000, 7, 30])
+    m = rng.random()
+    if m < 0.5:
+        ts = [float(x) for x in np.linspace(0, 1, n + 1)]
+    elif m < 0.8:
+        ts = [k / n for k in range(n + 1)]
+    else:
+        ts = [float(x) for x in np.arange(0, n + 1) * (1.0 / n) if x <= 1.0]
+    ts = sorted(set(ts))
+    if rng.random() < 0.3:
+        ts = ts[rng.randint(0, len(ts) // 2):]
+    obs = [ts] if rng.random() < 0.6 else [None]
+    dflt = [1.0] if obs[0] is not None else ts
+    if rng.random() < 0.3:
+        obs.append([k / 8 for k in range(9)])
+    return {"kind": "long", "dur": dur, "dt": dt, "obs": obs, "dflt": dflt}
+
+
 # ---- property oracle on the REAL output (falsifier) --------------------------------------------
 def property_check(ctx, case, code, tt, backends=False):
     """What C21 demands of _get_target_times on a well-formed input."""
@@ -77,6 +101,20 @@ def property_check(ctx, case, code, tt, backends=False):
         i = bisect.bisect_left(cand, x)
         if not any(0 <= j < len(cand) and tg.ulp_close(cand[j], x) for j in (i - 1, i, i + 1)):
             return bad(f"grid point {x} is neither a multiple of dt nor a requested time", "grid-extra")
+    try:  # what both backends do first: Statistics(evaluation_times=[t / T for t in target_times])
+        from pulser.backend.observable import Observable
+        Observable._validate_eval_times([t / tt[-1] for t in tt])
+        stat_exc = None
+    except ValueError as ex:
+        stat_exc = str(ex)[:160]
+    if stat_exc is not None:
+        rel = [t / tt[-1] for t in tt]
+        k = min(range(len(tt) - 1), key=lambda i: rel[i + 1] - rel[i])
+        return ctx.violation(
+            f"near-duplicate target times {tt[k]!r} and {tt[k + 1]!r} were not merged: pulser rejects the run's "
+            f"evaluation times, both backends raise before simulating ({stat_exc})",
+            {"case": case, "pair": [tt[k], tt[k + 1]], "n_points": len(tt), "finding_key": KEY_F08,
+             "backends": near_duplicate_in_backends(case) if backends else None})
     gap = min((b - a) / dur for a, b in zip(tt, tt[1:]))
     if gap < tg.TOLU * 0.999:  # the adapter merges points with t/T - prev/T < 1e-12 (float)
         k = min(range(len(tt) - 1), key=lambda i: tt[i + 1] - tt[i])
@@ -144,42 +182,108 @@ def real_sequence_checks(ctx, rng, n):
     return out
 
 
-def trajectory_checks(ctx, rng, n):
+NOISE_KINDS = ["empty", "lindblad", "spam", "shot-to-shot", "mixed"]
+KEY_REPS = "trajectory-repetitions-dropped"
+
+
+def noise_model(kind, rng):
+    from pulser.noise_model import NoiseModel
+    if kind == "empty":
+        return NoiseModel()
+    if kind == "lindblad":
+        return NoiseModel(dephasing_rate=rng.choice([0.05, 0.2]), relaxation_rate=rng.choice([0.0, 0.1]))
+    if kind == "spam":
+        return NoiseModel(state_prep_error=rng.choice([0.05, 0.3, 0.6]), p_false_pos=0.0, p_false_neg=0.0)
+    if kind == "shot-to-shot":
+        return NoiseModel(amp_sigma=0.05) if rng.random() < 0.5 else NoiseModel(detuning_sigma=0.3)
+    return NoiseModel(state_prep_error=0.3, p_false_pos=0.0, p_false_neg=0.0, amp_sigma=0.05, dephasing_rate=0.1)
+
+
+def trajectory_checks(ctx, rng, n_extra, end_to_end=5):
     """get_sequences yields every trajectory exactly `reps` times (consecutively) and as many
-    SequenceData in total as pulser requests (n_trajectories)."""
+    SequenceData in total as pulser requests: len == sum(reps) == n_trajectories.
+    Full matrix noise model {empty, Lindblad-only, SPAM-only, shot-to-shot, mixed} x n_trajectories
+    {1, 2, 5, 12} x config of both backends, plus n_extra random draws; for a cheap subset the real
+    backend.run() is executed end-to-end and the number of simulations is counted."""
+    import logging
     import warnings
     from emu_base import PulserData
-    from emu_sv import SVConfig
-    from pulser.noise_model import NoiseModel
-    import logging
+    from emu_mps import MPSBackend, MPSConfig
+    from emu_sv import SVBackend, SVConfig
+    from pulser.backend import BitStrings
+
+    combos = [(k, nt, b) for k in NOISE_KINDS for nt in (1, 2, 5, 12) for b in ("sv", "mps")]
+    for _ in range(n_extra):
+        combos.append((rng.choice(NOISE_KINDS), rng.choice([1, 2, 3, 5, 8, 12, 30]), rng.choice(["sv", "mps"])))
     res = []
-    for _ in range(n):
-        ntraj = rng.choice([1, 2, 3, 5, 8, 13, 30])
-        natoms = rng.choice([2, 3])
-        p = rng.choice([0.05, 0.3, 0.6])
-        seq = tg.real_sequence(rng.choice([16, 40, 100]), natoms, False)
-        with warnings.catch_warnings():
-            warnings.simplefilter("ignore")
-            nm = NoiseModel(state_prep_error=p, p_false_pos=0.0, p_false_neg=0.0)
+    for kind, ntraj, backend in combos:
+        case = {"kind": "trajectories", "noise": kind, "n_trajectories": ntraj, "backend": backend,
+                "natoms": 2 if len(res) < 40 else rng.choice([2, 3]), "dur": rng.choice([16, 40, 100]),
+                "noise_seed": rng.randint(0, 10**6)}
+        res.append(trajectory_one(ctx, case, end_to_end))
+    return res
+
+
+def trajectory_one(ctx, case, end_to_end=5):
+    import logging
+    import random
+    import warnings
+    from emu_base import PulserData
+    from emu_mps import MPSBackend, MPSConfig
+    from emu_sv import SVBackend, SVConfig
+    from pulser.backend import BitStrings
+
+    kind, ntraj, backend, natoms = case["noise"], case["n_trajectories"], case["backend"], case["natoms"]
+    seq = tg.real_sequence(case["dur"], natoms, False)
+    with warnings.catch_warnings():
+        warnings.simplefilter("ignore")
+        nm = noise_model(kind, random.Random(case["noise_seed"]))
+        obs = [BitStrings(evaluation_times=[1.0], num_shots=10)]
+        if backend == "sv":
             cfg = SVConfig(dt=10, gpu=False, log_level=logging.ERROR, noise_model=nm, n_trajectories=ntraj,
-                           observables=[tg.probe_class()(evaluation_times=[1.0])])
-            pd = PulserData(sequence=seq, config=cfg, dt=10)
-            trajs = list(pd.hamiltonian.noise_trajectories)
-            datas = list(pd.get_sequences())
+                           observables=obs)
+            B = SVBackend
+        else:
+            cfg = MPSConfig(dt=10, num_gpus_to_use=0, log_level=logging.ERROR, noise_model=nm,
+                            n_trajectories=ntraj, observables=obs)
+            B = MPSBackend
+        pd = PulserData(sequence=seq, config=cfg, dt=10)
+        trajs = list(pd.hamiltonian.noise_trajectories)
+        datas = list(pd.get_sequences())
         reps = [int(r) for _, r in trajs]
+        case["reps"] = reps
         # identify the trajectory of every yielded SequenceData by object identity of its samples
         ids, seen = [], {}
         for d in datas:
             ids.append(seen.setdefault(id(d.omega), len(seen)))
         model_ids = [i for i, r in enumerate(reps) for _ in range(r)]
-        bad_ok = all(tuple(d.bad_atoms) == tuple(trajs[i][0].bad_atoms.values()) for d, i in zip(datas, model_ids))
+        bad_ok = len(datas) != len(model_ids) or all(
+            tuple(d.bad_atoms) == tuple(trajs[i][0].bad_atoms.values()) for d, i in zip(datas, model_ids))
         ok = ids == model_ids and len(datas) == sum(reps) == ntraj and bad_ok
-        case = {"kind": "trajectories", "n_trajectories": ntraj, "reps": reps, "natoms": natoms, "p": p}
         if not ok:
-            ctx.violation("get_sequences does not yield each noise trajectory `reps` times",
-                          {"case": case, "yielded_ids": ids, "finding_key": "trajectory-reps"})
-        res.append((case, ids))
-    return res
+            ctx.violation(
+                f"get_sequences yields {len(datas)} SequenceData for n_trajectories={ntraj} (pulser requests "
+                f"reps={reps}) with noise model '{kind}' on {backend}: trajectory indices {ids}",
+                {"case": case, "yielded": len(datas), "yielded_ids": ids, "finding_key": KEY_REPS})
+        # end-to-end: the real backend.run() simulates once per requested repetition
+        if ntraj <= end_to_end and natoms == 2:
+            calls = []
+            orig = B._run_from_sequence_data
+            B._run_from_sequence_data = staticmethod(lambda d, c, _o=orig: (calls.append(1), _o(d, c))[1])
+            try:
+                B(seq, config=cfg).run()
+                n_runs, exc = len(calls), None
+            except Exception as ex:  # noqa: BLE001
+                n_runs, exc = len(calls), repr(ex)[:200]
+            finally:
+                B._run_from_sequence_data = orig
+            case["end_to_end_runs"], case["end_to_end_exc"] = n_runs, exc
+            if exc is None and n_runs != ntraj:
+                ctx.violation(
+                    f"{backend} backend.run() simulated {n_runs} times for n_trajectories={ntraj} "
+                    f"(noise model '{kind}')",
+                    {"case": case, "runs": n_runs, "finding_key": KEY_REPS})
+    return case, ids
 
 
 # ---------------------------------------------------------------------------------------------
@@ -208,6 +312,8 @@ def run(ctx):
         c = tg.gen_cluster_case(ctx.rng, max_points=ctx.rng.choice([40, 300, 1500]))
         c["kind"] = "cluster"
         cases.append(c)
+    for _ in range(ctx.n(60, 800)):  # long sequences, times coinciding with grid points up to round-off
+        cases.append(gen_long_case(ctx.rng))
     for _ in range(nbig):  # python-only oracle + in-Coq comparison: grids up to 1e5 points
         c = tg.gen_case(ctx.rng, max_points=100000)
         c["kind"] = "well-formed-big"
@@ -312,7 +418,7 @@ def run(ctx):
     ctx.obligation("correspondence:Model.TimeGrid.run steps==solver steps of emu-sv/emu-mps (bit-exact)",
                    loop_ok, detail, kind="correspondence")
 
-    trs = trajectory_checks(ctx, ctx.rng, ctx.n(12, 120))
+    trs = trajectory_checks(ctx, ctx.rng, ctx.n(10, 150), end_to_end=ctx.n(2, 5))
     tr_ok, detail = model_ok, ""
     if model_ok:
         try:
@@ -335,9 +441,11 @@ def run(ctx):
                 "observables with own or default times (decimal fractions k*dt/T, rationals, 0, 1, random; clusters: a "
                 "requested time at relative distance log-uniform in [1e-15, 1e-7] from a multiple of dt / a time of the "
                 "same observable / of another observable / of the default, anchored anywhere in [0,1] incl. 0, 1 and "
-                "the last multiple of dt), default "
+                "the last multiple of dt; long sequences 4096..200000 ns with np.linspace / k/N times), default "
                 "'Full', modulation on/off, malformed stream (dt 0/negative/nan, duration 0, Full+None, no observables); "
-                "real pulser sequences through PulserData and both backends (step loop); SPAM noise trajectories; "
+                "real pulser sequences through PulserData and both backends (step loop); noise trajectories: noise model "
+                "{empty, Lindblad-only, SPAM-only, shot-to-shot, mixed} x n_trajectories {1,2,5,12} x both backends "
+                "(yield count and order, end-to-end run count for n <= 5); "
                 "non-trivial = grid with more than 3 points / more than one trajectory; distinct by input hash")
     ctx.trusted_base += ["hand model coq/Model/TimeGrid.v (validated by the bit-exact correspondences on every run)",
                          "Coq PrimFloat = IEEE binary64 as in CPython/numpy",
@@ -354,7 +462,10 @@ def replay(ctx, path):
     rp = json.loads(open(path).read())
     c = rp["case"]
     if c.get("kind") == "trajectories":
-        print("trajectory cases are regenerated from the seed; rerun ./check C21")
+        case, ids = trajectory_one(ctx, {k: c[k] for k in ("kind", "noise", "n_trajectories", "backend", "natoms",
+                                                         "dur", "noise_seed")})
+        print("replay: noise", case["noise"], "n_trajectories", case["n_trajectories"], "reps", case["reps"],
+              "yielded trajectory indices", ids, "end-to-end runs", case.get("end_to_end_runs"))
         return
     cfg = tg.make_config(c, "sv")
     code, tt = tg.real_target_times(c, cfg)
